@@ -75,13 +75,47 @@ theorem fresh_data_fits (cs : List TxChan) (sid : UInt16) (ppid : UInt32) (data 
   intro c hc
   exact data_chunk_fits c (key _ t (fragment_le_max_payload cs sid ppid data) c hc)
 
+/-- **sack_chunk_fits**: the SACK chunk `create_sack_chunk` builds from any receiver state —
+at most `MAX_GAP_ACK_BLOCKS` gap blocks and `MAX_DUP_TSNS_PER_SACK` duplicate TSNs — fits a packet
+on its own (it is the second kind of chunk, after DATA, that `transmit()` hands to the batching;
+`packet_le_mtu` needs each chunk to fit). -/
+theorem sack_chunk_fits (s : Rx) : sctpCommonHdr + (encSack (createSack s).1).length ≤ sctpMaxPacket := by
+  have hg : (createSack s).1.gaps.length ≤ sctpGapBlocksMax := by
+    simp only [createSack, gapBlocks, gapBlocksSorted]
+    have h0 := gapLoop_length s.cum (sortKeys (s.rq.map (·.1))) none [] (by decide)
+    split
+    · next hlt =>
+      split
+      · next c hc =>
+        have : (pushBlock s.cum (gapLoop s.cum (sortKeys (s.rq.map (·.1))) none []).1 c).length ≤
+            (gapLoop s.cum (sortKeys (s.rq.map (·.1))) none []).1.length + 1 := by
+          simp only [pushBlock]; split <;> simp
+        omega
+      · exact h0
+    · exact h0
+  have hd : (createSack s).1.dups.length ≤ sctpSackDupsMax := by
+    simp only [createSack, List.length_take]; omega
+  generalize (createSack s).1 = k at hg hd
+  have flat4 : ∀ {α : Type} (f : α → Bytes), (∀ a, (f a).length = 4) → ∀ l : List α, ((l.map f).flatten).length = 4 * l.length := by
+    intro α f hf l
+    induction l with
+    | nil => rfl
+    | cons a r ih => simp only [List.map_cons, List.flatten_cons, List.length_append, hf a, ih, List.length_cons]; omega
+  have hgl := flat4 (fun g : UInt16 × UInt16 => be16 g.1 ++ be16 g.2) (by intro a; simp [be16]) k.gaps
+  have hdl := flat4 be32 (by intro a; simp [be32]) k.dups
+  simp only [encSack, encChunk, List.length_append, List.length_replicate, hgl, hdl, be16, be32, List.length_cons,
+    List.length_nil, pad4, sctpChunkHdr_val, sctpCommonHdr_val, sctpMaxPacket_val, sctpGapBlocksMax_val, sctpSackDupsMax_val] at *
+  omega
+
 /-! ### checksum and tag -/
 
 /-- **crc_accepts_own** / **vtag_is_peer_tag**: a datagram built by `send_packet_with_tag` passes
 `handle_packet`'s CRC-32C check, and what the receiver reads back as ports, verification tag and
 chunk bytes is what the sender put in (the tag is the `tag` argument: `remote_verification_tag`
-for everything but INIT). Holds for every step function of the CRC (only the composition law of
-`sctp_crc32c_append` is used). -/
+for everything but INIT). Only the composition law of `sctp_crc32c_append` is used, so on its own
+this says "sender and receiver use the same function"; that the function is CRC-32C is
+`crc_known_answers` below. Which tag each call site passes is not a theorem: it is checked on every
+captured datagram by `wireCheck` (tag = the initiate tag the peer announced). -/
 theorem crc_accepts_own (src dst : UInt16) (tag : UInt32) (chunks : List Bytes) :
     parsePacket (encPacket src dst tag chunks) =
       some { srcPort := src, dstPort := dst, vtag := tag,
@@ -94,6 +128,21 @@ theorem crc_accepts_own (src dst : UInt16) (tag : UInt32) (chunks : List Bytes) 
 
 example : (parsePacket (encPacket 5000 5001 0xDEADBEEF [encChunk 4 0 [1, 2, 3, 4, 5]])).map (·.vtag) = some 0xDEADBEEF := by
   rw [crc_accepts_own]; rfl
+
+set_option maxRecDepth 100000 in
+/-- **crc_known_answers**: `crc_accepts_own` alone would hold for any checksum with the append law,
+so the model's CRC is pinned to CRC-32C (Castagnoli) by the standard check value (ASCII "123456789") and the four
+iSCSI test patterns of RFC 3720 §B.4 (32 bytes of 0x00, of 0xFF, ascending, descending); the table
+is derived from the bitwise definition with the reflected polynomial 0x82F63B78, and the harness
+compares the code's `sctp_crc32c` with this function on lengths 0..70 and random inputs. -/
+theorem crc_known_answers :
+    crc32c [0x31, 0x32, 0x33, 0x34, 0x35, 0x36, 0x37, 0x38, 0x39] = 0xE3069283 ∧
+    crc32c (List.replicate 32 0) = 0x8A9136AA ∧
+    crc32c (List.replicate 32 0xFF) = 0x62A8AB43 ∧
+    crc32c ((List.range 32).map UInt8.ofNat) = 0x46DD794E ∧
+    crc32c ((List.range 32).reverse.map UInt8.ofNat) = 0x113FDB5C ∧
+    crcTable.size = 256 ∧ crcTable[1]! = 0xF26B8303 ∧ crcTable[255]! = 0xAD7D5351 := by
+  decide
 
 /-! ### retransmit phase -/
 
@@ -127,11 +176,14 @@ theorem rexmit_only_marked : ∀ (q : List SRec) (flight now : Nat),
       | inr e => exact b x e
 
 
-/-- **model_traces_wireOk** (control packets): a datagram the model's `send_packet_with_tag`
-builds with the peer's announced tag, within the MTU and carrying no INIT / INIT-ACK / DATA chunk,
-passes the decidable wire predicate `wireStep` that the driver evaluates on every captured datagram
-(size, CRC-32C, verification tag) and leaves the per-side TSN bookkeeping untouched. -/
-theorem model_traces_wireOk (w : WireSt) (idx s : Nat) (src dst : UInt16) (tag : UInt32) (chunks : List Bytes)
+/-- **wire_oracle_accepts_conforming** (was `model_traces_wireOk`; the audit is right that it
+assumes the tag it concludes): this is a *no-false-alarm* lemma about the oracle, not a property
+of the sender. A datagram built by `send_packet_with_tag` with the peer's announced tag, within the
+MTU and carrying no INIT / INIT-ACK / DATA chunk, is accepted by the decidable wire predicate
+`wireStep` that the driver evaluates on every captured datagram (size, CRC-32C, verification tag)
+and leaves the per-side TSN bookkeeping untouched. The tag rule itself is established per run by
+that predicate on the real wire. -/
+theorem wire_oracle_accepts_conforming (w : WireSt) (idx s : Nat) (src dst : UInt16) (tag : UInt32) (chunks : List Bytes)
     (hv : w.viol = none) (hpeer : (w.side (1 - s)).tag = some tag)
     (hlen : (encPacket src dst tag chunks).length ≤ sctpMaxPacket)
     (hk : ∀ c ∈ parseChunks chunks.flatten.length chunks.flatten,
@@ -303,12 +355,113 @@ example : (∀ r ∈ [({ tsn := 0, len := 100 } : SRec), { tsn := 0xFFFFFFFE, le
     (applySack [{ tsn := 0, len := 100 }, { tsn := 0xFFFFFFFE, len := 100 }] 0xFFFFFFFE [] 10 true 8).1.map (·.tsn) = [0] := by
   decide
 
+/-! ### the advertised window against what is really unacknowledged -/
+
+/-- bytes sent and not acknowledged (what occupies, or is on its way to, the peer's buffer) -/
+def outstanding (q : List SRec) : Nat := ((q.filter (fun r => !r.acked)).map (·.len)).sum
+
+/-- **window_rule_partial**: as long as the code's `flight_size` (after the retransmit phase)
+still counts every unacknowledged byte, no new DATA leaves once the unacknowledged bytes reach the
+advertised window. Partial: a T3 expiry sets `flight_size := 0` and a stale SACK with the newest
+cumulative TSN rewrites `peer_rwnd`; the two witnesses below show new data leaving beyond the
+window in exactly these two situations (recorded findings
+`window:new-data-beyond-advertised-window-plus-one-packet:after-t3-restarted-flight-size` and
+`…:older-sack-with-same-cumulative-tsn`). -/
+theorem window_rule_partial (s : Tx) (sackNeeded : Bool) (now : Nat)
+    (hcount : outstanding s.sentQ ≤ (rexmitPhase s.sentQ s.flight now).2.1)
+    (hfull : s.peerRwnd ≤ outstanding s.sentQ) :
+    (transmit s sackNeeded now).1.outQ = s.outQ ∧ (transmit s sackNeeded now).1.nextTsn = s.nextTsn :=
+  closed_window_sends_nothing_new s sackNeeded now (Nat.le_trans hfull hcount)
+
+def exRec (t : UInt32) : SRec := { tsn := t, len := 1200 }
+/-- six full chunks unacknowledged = the whole advertised window; one more chunk queued -/
+def exFull : Tx :=
+  { sentQ := [exRec 10, exRec 11, exRec 12, exRec 13, exRec 14, exRec 15],
+    outQ := [{ sid := 1, ppid := 53, payload := [1, 2, 3, 4, 5, 6, 7, 8], flags := 3, ssn := 0 }],
+    flight := 7200, cwnd := 100000, peerRwnd := 7200, nextTsn := 16, maxBurst := 16 }
+
+/-- **t3_restarts_flight_witness**: with the window full `transmit()` sends nothing new; after a T3
+expiry (nothing was acknowledged, the same 7200 bytes are still unacknowledged) the very next
+`transmit()` takes new data: `flight_size` was reset to 0 and only the 4 marked records are counted
+again. RFC 4960 §6.3.3/§6.2.1 treats data marked for retransmission as no longer occupying the
+peer's window, so the code follows the RFC; against the wire it exceeds the newest `a_rwnd`. -/
+theorem t3_restarts_flight_witness :
+    outstanding exFull.sentQ = exFull.peerRwnd ∧
+    (transmit exFull false 100).1.nextTsn = 16 ∧
+    outstanding (t3Fire exFull 200 8).sentQ = exFull.peerRwnd ∧
+    (transmit (t3Fire exFull 200 8) false 200).1.nextTsn = 17 ∧
+    outstanding (transmit (t3Fire exFull 200 8) false 200).1.sentQ > exFull.peerRwnd := by
+  decide
+
+/-- an overtaken SACK (cumulative TSN serially behind the newest one seen) leaves `peer_rwnd` alone
+(fix 5cfc04a) -/
+theorem overtaken_sack_keeps_window (s : Tx) (h : SackHist) (cum : UInt32) (arwnd : Nat)
+    (gaps : List (UInt16 × UInt16)) (now mx : Nat) (hold : tsnGt h.peerCumAck cum = true) :
+    (handleSackTx s h cum arwnd gaps now mx).1.peerRwnd = s.peerRwnd := by
+  simp [handleSackTx, hold, transmit]
+
+/-- **stale_sack_same_cum_witness**: two SACKs with the same cumulative TSN 9 — the receiver first
+said "window 9000", then (more data queued out of order) "window 0 + gap block". Delivered in the
+opposite order the older one is taken at face value: `peer_rwnd` goes back to 9000 and new data
+leaves although the newest advertisement is 0. -/
+theorem stale_sack_same_cum_witness :
+    let s0 : Tx := { exFull with peerRwnd := 9000 }
+    let a := handleSackTx s0 { peerCumAck := 9 } 9 0 [(3, 3)] 100 8        -- newest: window closed
+    let b := handleSackTx a.1 a.2.1 9 9000 [] 100 8                         -- older one arrives late
+    a.1.peerRwnd = 0 ∧ a.1.nextTsn = 16 ∧ b.1.peerRwnd = 9000 ∧ b.1.nextTsn = 17 := by
+  decide
+
 /-! ### quiescence -/
 
-/-- **quiescent_when_all_acked**: with nothing unacknowledged, nothing queued and no SACK owed, a
-`transmit()` puts nothing on the wire, and a T3 expiry has nothing to mark. -/
-theorem quiescent_when_all_acked (s : Tx) (now mx : Nat) (h1 : s.sentQ = []) (h2 : s.outQ = []) :
-    (transmit s false now).2 = [] ∧ (t3Fire s now mx).sentQ = [] := by
-  simp [transmit, h1, h2, rexmitPhase, popBudget, assignTsn, t3Fire, t3Mark]
+/-- what can happen to a sender: a `transmit()` (run loop, `send_data`), the T3 check, the TLP
+probe, an incoming SACK (any content) -/
+inductive SOp where
+  | transmit (now : Nat)
+  | timeout (now rto : Nat)
+  | tlp (now : Nat)
+  | sack (cum : UInt32) (arwnd : Nat) (gaps : List (UInt16 × UInt16)) (now : Nat)
+
+def sopStep (mx : Nat) (st : Tx × SackHist) : SOp → (Tx × SackHist) × List TxItem
+  | .transmit now => let r := transmit st.1 false now; ((r.1, st.2), r.2)
+  | .timeout now rto => let r := transmit (handleTimeout st.1 now rto mx) false now; ((r.1, st.2), r.2)
+  | .tlp now => let r := transmit (tlpProbe st.1 now) false now; ((r.1, st.2), r.2)
+  | .sack cum arwnd gaps now => let r := handleSackTx st.1 st.2 cum arwnd gaps now mx; ((r.1, r.2.1), r.2.2)
+
+def sopRun (mx : Nat) (st : Tx × SackHist) : List SOp → List TxItem
+  | [] => []
+  | o :: rest => (sopStep mx st o).2 ++ sopRun mx (sopStep mx st o).1 rest
+
+/-- **quiescent_stays** (replaces the definitional `quiescent_when_all_acked`): from a state with
+nothing unacknowledged and nothing queued, *no sequence* of run-loop transmits, T3 checks, TLP
+probes and incoming SACKs of any content (stale, duplicated, with gap blocks) makes the sender put
+anything on the wire — no DATA, no retransmission, no SACK. (HEARTBEAT is outside this model; the
+trace oracle `quiescence:<CT>-after-everything-acknowledged` watches the real wire for INIT,
+COOKIE-ECHO, FORWARD-TSN, retransmitted DATA and unowed SACKs.) -/
+theorem quiescent_stays (mx : Nat) (ops : List SOp) :
+    ∀ (st : Tx × SackHist), st.1.sentQ = [] → st.1.outQ = [] → sopRun mx st ops = [] := by
+  have tr : ∀ (s : Tx) (now : Nat), s.sentQ = [] → s.outQ = [] →
+      (transmit s false now).2 = [] ∧ (transmit s false now).1.sentQ = [] ∧ (transmit s false now).1.outQ = [] := by
+    intro s now h1 h2
+    simp [transmit, h1, h2, rexmitPhase, popBudget, assignTsn]
+  induction ops with
+  | nil => intro st _ _; rfl
+  | cons o rest ih =>
+    intro st h1 h2
+    have key : (sopStep mx st o).2 = [] ∧ (sopStep mx st o).1.1.sentQ = [] ∧ (sopStep mx st o).1.1.outQ = [] := by
+      cases o with
+      | transmit now => exact tr st.1 now h1 h2
+      | timeout now rto =>
+        have : handleTimeout st.1 now rto mx = st.1 := by simp [handleTimeout, h1]
+        simp only [sopStep, this]; exact tr st.1 now h1 h2
+      | tlp now =>
+        have : tlpProbe st.1 now = st.1 := by simp [tlpProbe, tlpTail, h1]
+        simp only [sopStep, this]; exact tr st.1 now h1 h2
+      | sack cum arwnd gaps now =>
+        simp only [sopStep, handleSackTx]
+        apply tr
+        · simp only [h1]; exact applySack_nil cum gaps now _ mx
+        · exact h2
+    simp only [sopRun, key.1, List.nil_append]
+    exact ih _ key.2.1 key.2.2
 
 end RtcModel.Theorems.C13
